@@ -1019,6 +1019,7 @@ def setitem(it, obj, key, v, node=None):
         return obj.py_setitem(it, key, v, node)
     if isinstance(obj, PDict):
         if isinstance(key, (SInt, SStr, SEnum)):
+            note_global_write(obj)
             raise Unsupported('symbolic key stored into literal dict')
         obj.set_entry(_hashkey(key), True, v)
         return
